@@ -35,7 +35,8 @@ def scenario(kind, flows, seed, stochastic=None, key=None):
             random.setstate(saved)
 
 
-def _scenario(kind, flows, rng, stochastic, key):
+def _build(kind, flows, rng, stochastic):
+    """the program: three bursty sources -> scheduler -> port -> wire -> recorder; returns (env, scheduler, port, deliveries, put counter)"""
     env = Environment()
     rate = 8000.0
     w = {f: rng.choice([1, 2, 3]) for f in flows}
@@ -74,11 +75,124 @@ def _scenario(kind, flows, rng, stochastic, key):
                 s.put(Packet(env.now, rng.choice([100, 500, 1500]), pid, flow_id=rng.choice(flows)))
     for k in range(3):
         env.process(src(k + 1))
+    return env, s, port, out, nput
+
+
+def _scenario(kind, flows, rng, stochastic, key):
+    env, s, port, out, nput = _build(kind, flows, rng, stochastic)
     with quiet():
         env.run(until=10000)
     if key is not None:
         STATS[key] = (nput[0], len(out))
     return hashlib.sha256(repr(out).encode()).hexdigest()
+
+
+# ---- C03, second half, on network programs: "splitting one run into any sequence of run(until=...) and step() calls produces
+# exactly the trace of the single uninterrupted run".  The program carries the library's own sampling components (a scheduler
+# Monitor, a PortMonitor) whose processes outlive the traffic: the sources stop after ~12 s, the backlog drains, and the horizon
+# T lies far behind that, so that for most of the run nothing but the samplers (and, under run(until=T), the kernel's stop
+# marker) is scheduled.  How the run is driven must not be observable by the program.
+
+SPLIT_T = 240
+SPLIT_PLANS = ('whole', 'steps', 'mixed-a', 'mixed-b', 'until-then-steps')
+
+
+def drive(env, T, plan, seed):
+    """execute the program up to T under a plan; every plan ends with now == T"""
+    prng = random.Random(f'netsplit-{plan}-{seed}')
+    def steps(limit):
+        while env.peek() < limit:
+            env.step()
+    if plan == 'whole':
+        env.run(until=T)
+        return
+    if plan == 'steps':
+        steps(T)
+    elif plan == 'until-then-steps':
+        env.run(until=prng.choice([2, 5, 7.5, 11]))
+        steps(T)
+    else:
+        cuts = sorted(prng.sample([x * 0.5 for x in range(1, 2 * T)], prng.choice([2, 3, 5])))
+        for c in cuts:
+            if prng.random() < 0.5:
+                if c > env.now:
+                    env.run(until=c)
+            else:
+                steps(c)
+        if prng.random() < 0.7:
+            steps(T)
+    if env.now < T:
+        env.run(until=T)
+
+
+def monitored(kind, flows, seed, plan, attach='both'):
+    """one execution of the monitored program under a plan -> the observable trace as a dict of json-able parts"""
+    from onl.scheduler import Monitor
+    from onl.netdev.port_monitor import PortMonitor
+    rng = random.Random(seed)
+    env, s, port, out, nput = _build(kind, flows, rng, None)
+    probe = {'mon': [], 'pmon': []}          # the instants at which the samplers ask for their next interval (probe callbacks)
+    def mdist():
+        probe['mon'].append(bits(env.now)); return 1.0
+    def pdist():
+        probe['pmon'].append(bits(env.now)); return 0.75
+    # `attach`: which samplers the program carries ('mon' | 'pmon' | 'both'); with a single sampler it is the only thing left in the
+    # schedule once the traffic has drained
+    class _None: sizes = {}; byte_sizes = {}; sizes_byte = ()
+    mon = pm = _None
+    if attach in ('mon', 'both'):
+        mon = Monitor(env, s, mdist, service_included=bool(seed % 2))
+    if attach in ('pmon', 'both'):
+        pm = PortMonitor(env, port, pdist, pkt_in_service_included=bool((seed // 2) % 2))
+        env.process(pm.run())
+    with quiet():
+        drive(env, SPLIT_T, plan, seed)
+    return {'deliveries': out,
+            'monitor sample instants': probe['mon'],
+            'monitor sizes': sorted((repr(f), list(v)) for f, v in mon.sizes.items()),
+            'monitor byte sizes': sorted((repr(f), list(v)) for f, v in mon.byte_sizes.items()),
+            'port monitor sample instants': probe['pmon'],
+            'port monitor sizes': list(pm.sizes), 'port monitor byte sizes': list(pm.sizes_byte),
+            'final now': bits(env.now), 'packets offered': nput[0]}
+
+
+def split_one(kind, label, flows, sd, plan, attach, whole=None):
+    """one monitored program under one split plan against its uninterrupted run -> failure dict or None"""
+    from vlib.util import unbits
+    whole = whole or monitored(kind, flows, sd, 'whole', attach)
+    got = monitored(kind, flows, sd, plan, attach)
+    if got == whole:
+        return None
+    last = max([unbits(t) for _, _, t in whole['deliveries']], default=0.0)
+    part = next(k for k in whole if got[k] != whole[k])
+    a, b = whole[part], got[part]
+    d = f'{len(b)} entries against {len(a)}' if isinstance(a, list) and len(a) != len(b) else f'{str(b)[:80]} against {str(a)[:80]}'
+    return {'what': f'network program {kind}-{label} (scheduler + port + wire, samplers attached: {attach}, traffic ends at '
+                    f't={last}, horizon {SPLIT_T}): executed under the plan `{plan}` (run(until=t)/step() pieces, then run(until={SPLIT_T})) '
+                    f'its observable trace differs from the single run(until={SPLIT_T}) in `{part}`: {d}',
+            'signature': 'split-net-differs',
+            'case': {'scenario': f'{kind}-{label}', 'seed': sd, 'plan': plan, 'T': SPLIT_T, 'flows': flows, 'attach': attach, 'differs_in': part}}
+
+
+def split_failures(seed):
+    """-> (oracle failures, coverage) : every monitored program under every split plan against its uninterrupted run"""
+    from vlib.util import unbits
+    fails, cov = [], {'split_network_programs': 0, 'split_network_executions': 0, 'programs_idle_before_T': 0}
+    for i, kind in enumerate(('sp', 'rr', 'wrr', 'drr', 'wfq', 'vc')):
+        for label, flows in (('int', [0, 1, 2, 3, 4]), ('str', NAMES)):
+            sd = seed * 10 + 5 + (label == 'str')
+            attach = 'mon' if label == 'int' else ('both', 'pmon')[i % 2]
+            whole = monitored(kind, flows, sd, 'whole', attach)
+            cov['split_network_programs'] += 1
+            last = max([unbits(t) for _, _, t in whole['deliveries']], default=0.0)
+            if whole['deliveries'] and last < SPLIT_T - 20:
+                cov['programs_idle_before_T'] += 1
+            for plan in SPLIT_PLANS[1:]:
+                f = split_one(kind, label, flows, sd, plan, attach, whole)
+                cov['split_network_executions'] += 1
+                if f:
+                    fails.append(f)
+    return fails, cov
 
 
 def all_digests(seed):
